@@ -16,7 +16,7 @@ func VerifC09_finalize_step() {
 	_, brk, err := issuer.Evaluate(wire)
 	vAssume(err == nil)
 	clientKey := st.ClientKey()
-	anon := vBytesC("anon", 0, 2) // anonymous origin ids of any length, including the empty one
+	anon := vBytesC("anon", 0, vBound("C09_anon_len", 2, 9)) // anonymous origin ids of any length, including the empty one
 	anonHex := hexOf(anon)
 
 	// the index this call will compute, obtained from a throw-away attester
@@ -39,7 +39,7 @@ func VerifC09_finalize_step() {
 		cache.m[hexOf(clientKey)] = state
 	}
 	// pre-state of this client
-	anon2Hex := hexOf(vBytesC("anon2", 0, 2))
+	anon2Hex := hexOf(vBytesC("anon2", 0, vBound("C09_anon_len", 2, 9)))
 	vAssume(anon2Hex != anonHex)
 	binding := vSplit(vInt("index_binding", 0, 2), 0, 2) // 0 unbound, 1 bound to this anon id, 2 bound to another
 	switch binding {
